@@ -230,3 +230,126 @@ Proof.
   split; [apply next_ok_dec; reflexivity|]. split; [apply prev_ok_dec; reflexivity|].
   vm_compute. repeat split; reflexivity.
 Qed.
+
+(* ---------------------------------------------------------------------------------------------
+   THE FUNCTIONS BUILT ON THE COLUMN ARRAY ARE THE C TEXT, RELATIVE TO ren_position (coq/TrRen2.v).
+   ren_noeol is proved as a whole (it calls uc_slen and uc_chr only).  ren_off, ren_pos, ren_next and ren_cursor
+   are `pos = ren_position(s); ... ; free(pos)`: they are proved as whole functions under the hypothesis
+   pos_call, which says of ONE call of the translated ren_position (on the memory at hand) that it returns a
+   pointer to a block holding the int array l and leaves the string and uc_chr's static "" in place.  With
+   l = ren_position of the model the results are the model's ren_off / ren_pos / ren_next / ren_cursor
+   (C17_tr_ren_models, by reflexivity).  ren_position itself (the widths, the reordering) has no translation
+   theorem: it stays tied by correspondence; the Example discharges pos_call by RUNNING the translated
+   ren_position. *)
+From NV Require Import TrRen2.
+
+Theorem C17_tr_ren_noeol : forall m b s off d fuel, globals_at m ->
+  str_at m b s -> nonul s -> (length s < fuel)%nat -> Z.of_nat (length s) <= 2147483647 -> off <= 2147483647 ->
+  callf cprog fuel (S (S (S (S d)))) F_ren_noeol [VPtr b 0; VInt off] m = Ok (VInt (ren_noeol s off), m).
+Proof. exact tr_ren_noeol. Qed.
+Print Assumptions C17_tr_ren_noeol.
+
+(* the part of ren_off after `pos = ren_position(s)`, for EVERY int array pos may point to: the inclusive
+   pos_prev, the search for the last index holding that column, free(pos), the return *)
+Theorem C17_tr_ren_off_tail : forall m g l n sv p d fuel, int_arr_at m g l -> ints_ok l -> (n < length l)%nat ->
+  Z.of_nat n <= 2147483647 -> (n < fuel)%nat ->
+  exists loc', exec (callf cprog fuel (S d)) fuel ro_tail
+                 (mkst [sv; VInt p; VInt (-1); VInt (Z.of_nat n); VPtr g 0; VUndef] m)
+               = OReturn (VInt (Z.of_nat (ren_off_pos l n p))) (mkst loc' (CLiteProps.upd m g [])).
+Proof. exact tr_ren_off_tail. Qed.
+Print Assumptions C17_tr_ren_off_tail.
+
+Theorem C17_tr_ren_off_rel : forall m m1 b s g l p d fuel,
+  str_at m b s -> nonul s -> (length s < fuel)%nat -> Z.of_nat (length s) <= 2147483647 ->
+  callf cprog fuel (S (S d)) F_ren_position [VPtr b 0] m = Ok (VPtr g 0, m1) ->
+  int_arr_at m1 g l -> ints_ok l -> (uc_slen s < length l)%nat ->
+  callf cprog fuel (S (S (S d))) F_ren_off [VPtr b 0; VInt p] m
+  = Ok (VInt (Z.of_nat (ren_off_pos l (uc_slen s) p)), CLiteProps.upd m1 g []).
+Proof. exact tr_ren_off_rel. Qed.
+Print Assumptions C17_tr_ren_off_rel.
+
+Theorem C17_tr_ren_pos_rel : forall m m1 b s g l off d fuel,
+  str_at m b s -> nonul s -> (length s < fuel)%nat -> Z.of_nat (length s) <= 2147483647 ->
+  callf cprog fuel (S (S d)) F_ren_position [VPtr b 0] m = Ok (VPtr g 0, m1) ->
+  int_arr_at m1 g l -> ints_ok l -> (uc_slen s < length l)%nat -> 0 <= off ->
+  callf cprog fuel (S (S (S d))) F_ren_pos [VPtr b 0; VInt off] m
+  = Ok (VInt (if off <? Z.of_nat (uc_slen s) then nthz l off else 0), CLiteProps.upd m1 g []).
+Proof. exact tr_ren_pos_rel. Qed.
+Print Assumptions C17_tr_ren_pos_rel.
+
+Theorem C17_tr_ren_next_rel : forall m m1 m3 b s g g' l p dir d fuel,
+  str_at m b s -> nonul s -> (length s < fuel)%nat -> Z.of_nat (length s) <= 2147483647 ->
+  pos_call fuel (S (S (S d))) m b s l g m1 ->
+  pos_call fuel (S (S d)) (CLiteProps.upd m1 g []) b s l g' m3 ->
+  ints_ok l -> (uc_slen s < length l)%nat -> next_ok l false -> prev_ok l false ->
+  callf cprog fuel (S (S (S (S d)))) F_ren_next [VPtr b 0; VInt p; VInt dir] m
+  = Ok (VInt (ren_next_l l s p dir), CLiteProps.upd m3 g' []).
+Proof. exact tr_ren_next_rel. Qed.
+Print Assumptions C17_tr_ren_next_rel.
+
+(* the extra hypothesis: no truncated multi-byte sequence at the end of the line -- uc_code reads uc_len(s) bytes *)
+Theorem C17_tr_ren_cursor_rel : forall m m1 m3 b s g g' l p d fuel,
+  str_at m b s -> nonul s -> (length s < fuel)%nat -> Z.of_nat (length s) <= 2147483647 ->
+  (forall q, (q <= length s)%nat -> (q + uc_len_b (nthb s q) - 1 <= length s)%nat) ->
+  pos_call fuel (S (S (S d))) m b s l g m1 ->
+  pos_call fuel (S (S d)) m1 b s l g' m3 -> int_arr_at m3 g l -> g <> g' ->
+  ints_ok l -> (uc_slen s < length l)%nat -> next_ok l false -> prev_ok l false ->
+  callf cprog fuel (S (S (S (S d)))) F_ren_cursor [VPtr b 0; VInt p] m
+  = Ok (VInt (ren_cursor_l l s p), CLiteProps.upd (CLiteProps.upd m3 g' []) g []).
+Proof. exact tr_ren_cursor_rel. Qed.
+Print Assumptions C17_tr_ren_cursor_rel.
+
+(* on the model's column array these are the model's functions *)
+Theorem C17_tr_ren_models : forall dr o s p dir off, 0 <= off ->
+  Z.of_nat (ren_off_pos (ren_position dr o s) (uc_slen s) p) = Z.of_nat (ren_off dr o s p) /\
+  (if off <? Z.of_nat (uc_slen s) then nthz (ren_position dr o s) off else 0) = ren_pos dr o s off /\
+  ren_next_l (ren_position dr o s) s p dir = ren_next dr o s p dir /\
+  ren_cursor_l (ren_position dr o s) s p = ren_cursor dr o s p.
+Proof. exact (fun dr o s p dir off H => conj (ren_off_model dr o s p) (conj (ren_pos_model dr o s off H) (conj (ren_next_model dr o s p dir) (ren_cursor_model dr o s p)))). Qed.
+Print Assumptions C17_tr_ren_models.
+
+(* the hypotheses hold and everything RUNS on "a<TAB>b": the translated ren_position returns the model's array
+   [0; 1; 8; 9] in a fresh block (pos_call for the three memories the functions call it on), and the translated
+   ren_noeol / ren_off / ren_pos / ren_next / ren_cursor return what the theorems say *)
+Example C17_tr_ren_rel_nonvacuous :
+  let s := [97; 9; 98]%N in
+  let b := length cglobals in
+  let m := cglobals ++ [cstr_block (zb s)] in
+  let l := [0; 1; 8; 9] in
+  l = ren_position (fun _ ord => ord) {| xorder := 1; xlim := 256 |} s /\
+  globals_at m /\ str_at m b s /\ nonul s /\ ints_ok l /\ next_ok l false /\ prev_ok l false /\
+  (forall q, (q <= length s)%nat -> (q + uc_len_b (nthb s q) - 1 <= length s)%nat) /\
+  (exists g m1 g' m3 g'' m3',
+     pos_call 100 9 m b s l g m1 /\ pos_call 100 8 (CLiteProps.upd m1 g []) b s l g' m3 /\
+     pos_call 100 8 m1 b s l g'' m3' /\ int_arr_at m3' g l /\ g <> g'') /\
+  (exists m', callf cprog 100 10 F_ren_off [VPtr b 0; VInt 5] m = Ok (VInt 1, m')) /\
+  (exists m', callf cprog 100 10 F_ren_pos [VPtr b 0; VInt 2] m = Ok (VInt 8, m')) /\
+  (exists m', callf cprog 100 10 F_ren_next [VPtr b 0; VInt 1; VInt 1] m = Ok (VInt 8, m')) /\
+  (exists m', callf cprog 100 10 F_ren_cursor [VPtr b 0; VInt 5] m = Ok (VInt 7, m')) /\
+  callf cprog 100 10 F_ren_noeol [VPtr b 0; VInt 7] m = Ok (VInt 2, m) /\
+  ren_off (fun _ ord => ord) {| xorder := 1; xlim := 256 |} s 5 = 1%nat /\
+  ren_next (fun _ ord => ord) {| xorder := 1; xlim := 256 |} s 1 1 = 8 /\
+  ren_cursor (fun _ ord => ord) {| xorder := 1; xlim := 256 |} s 5 = 7 /\ ren_noeol s 7 = 2.
+Proof.
+  cbv zeta.
+  split; [vm_compute; reflexivity|].
+  split; [intros g blk H; rewrite nth_error_app1; [exact H|apply nth_error_Some; congruence]|].
+  split; [reflexivity|]. split; [repeat constructor; discriminate|].
+  split; [apply ints_ok_dec; reflexivity|]. split; [apply next_ok_dec; reflexivity|]. split; [apply prev_ok_dec; reflexivity|].
+  split; [intros [|[|[|[|q]]]] H; vm_compute in H |- *; try (repeat constructor); exfalso; repeat (apply le_S_n in H); inversion H|].
+  split.
+  { set (m := cglobals ++ [cstr_block (zb [97; 9; 98]%N)]).
+    let r := eval vm_compute in (callf cprog 100 9 F_ren_position [VPtr (length cglobals) 0] m) in
+    match r with Ok (VPtr ?g _, ?m1) =>
+      exists g, m1;
+      let r2 := eval vm_compute in (callf cprog 100 8 F_ren_position [VPtr (length cglobals) 0] (CLiteProps.upd m1 g [])) in
+      match r2 with Ok (VPtr ?g' _, ?m3) =>
+        exists g', m3;
+        let r3 := eval vm_compute in (callf cprog 100 8 F_ren_position [VPtr (length cglobals) 0] m1) in
+        match r3 with Ok (VPtr ?g'' _, ?m3') => exists g'', m3' end
+      end
+    end.
+    unfold pos_call.
+    repeat split; try (vm_compute; reflexivity); try (vm_compute; intro H; discriminate H). }
+  repeat split; try (eexists; vm_compute; reflexivity); vm_compute; reflexivity.
+Qed.
